@@ -14,10 +14,9 @@ inductive Err
   | emptyData | checksum | badValue | nonAscii
   deriving DecidableEq, Repr
 
-/-- canonical class on the line protocol: everything is a BTClibValueError except the
-    `UnicodeEncodeError` of `s.encode("ascii")` in `encode` (a foreign exception). -/
+/-- canonical class on the line protocol: everything is a BTClibValueError, including the
+    non-ascii HRP that `s.encode("ascii")` in `encode` refuses (re-raised as ValueError since 90be8f62). -/
 def Err.cls : Err → String
-  | .nonAscii => "foreign"
   | _ => "value"
 
 /-- `_TAPS[top]` (reachable arguments have `top < 32`, see `Proofs/C06/Polymod.lean`). -/
